@@ -196,8 +196,8 @@ Proof.
     destruct (m_append m); exact Hgen.
 Qed.
 
-(* the partial refinement theorem *)
-Lemma refines_partial :
+(* refinement on the read / seek / tell fragment (static condition on the program) *)
+Lemma refines_read_fragment :
   forall (m : fmode) (bufsz : Z) (file : option (list Z)) (ops : list fop) (fuel : nat)
          (f0 : sfile) (r0 : rfile),
     sf_open m bufsz file = Some f0 -> ref_open m file = Some r0 ->
@@ -259,3 +259,572 @@ Lemma refuted_bare_x :
   exists f0 r0, sf_open Mxbare 0 None = Some f0 /\ ref_open Mxbare None = Some r0 /\
     fst (sf_run 100 f0 [FWrite [97]]) <> fst (ref_run r0 [FWrite [97]]).
 Proof. eexists _, _. split; [reflexivity|]. split; [reflexivity|]. vm_compute. discriminate. Qed.
+
+
+(* =====================================================================================
+   The disciplined fragment: write + flush + seek + read + tell (+ truncate last)
+   ===================================================================================== *)
+Lemma zlen_zeros n : zlen (zeros n) = Z.max 0 n.
+Proof. unfold zeros, zlen. rewrite repeat_length. lia. Qed.
+Lemma zeros_nonpos n : n <= 0 -> zeros n = [].
+Proof. intros. unfold zeros. replace (Z.to_nat n) with O by lia. reflexivity. Qed.
+
+Lemma put_nil c off : put c off [] = c.
+Proof. reflexivity. Qed.
+Lemma put_cons c off d : d <> [] ->
+  put c off d = take off c ++ zeros (off - zlen c) ++ d ++ drop (off + zlen d) c.
+Proof. intros H. unfold put. destruct d; [congruence|reflexivity]. Qed.
+Lemma put_end c d : put c (zlen c) d = c ++ d.
+Proof.
+  destruct d as [|x d]; [now rewrite app_nil_r|].
+  rewrite put_cons by discriminate. rewrite take_all by lia. rewrite zeros_nonpos by lia.
+  rewrite drop_all by (pose proof (zlen_nonneg (x :: d)); lia). now rewrite app_nil_r.
+Qed.
+Lemma put_app c off a b : 0 <= off -> put (put c off a) (off + zlen a) b = put c off (a ++ b).
+Proof.
+  intros Hoff. destruct a as [|x a]; [cbn; now rewrite Z.add_0_r|].
+  destruct b as [|y b]; [now rewrite app_nil_r|].
+  set (A := x :: a). set (B := y :: b).
+  assert (HA : A <> []) by discriminate. assert (HB : B <> []) by discriminate.
+  assert (HAB : A ++ B <> []) by discriminate.
+  rewrite (put_cons c off A HA), (put_cons _ _ B HB), (put_cons c off (A ++ B) HAB).
+  set (P := take off c ++ zeros (off - zlen c)).
+  assert (HP : zlen P = off).
+  { unfold P. rewrite zlen_app, zlen_take, zlen_zeros by lia. pose proof (zlen_nonneg c). lia. }
+  set (S := drop (off + zlen A) c).
+  replace (take off c ++ zeros (off - zlen c) ++ A ++ S) with ((P ++ A) ++ S)
+    by (unfold P; now rewrite <- !app_assoc).
+  assert (HPA : zlen (P ++ A) = off + zlen A) by (rewrite zlen_app; lia).
+  rewrite take_app_le by lia. rewrite take_all by lia.
+  rewrite zeros_nonpos by (rewrite zlen_app; pose proof (zlen_nonneg S); lia).
+  rewrite drop_app_ge by (pose proof (zlen_nonneg B); lia).
+  replace (off + zlen A + zlen B - zlen (P ++ A)) with (zlen B) by lia.
+  unfold S. rewrite drop_drop by (try apply zlen_nonneg; pose proof (zlen_nonneg A); lia).
+  rewrite zlen_app. unfold P. rewrite <- !app_assoc. cbn [app].
+  replace (off + (zlen A + zlen B)) with (off + zlen A + zlen B) by lia. reflexivity.
+Qed.
+
+(* ---- configuration frame ---- *)
+Definition fcfg (f f' : sfile) : Prop :=
+  fl_read f' = fl_read f /\ fl_write f' = fl_write f /\ fl_append f' = fl_append f /\
+  fl_buffered f' = fl_buffered f /\ fl_linebuf f' = fl_linebuf f /\ bufsize f' = bufsize f /\
+  closed f' = closed f.
+Lemma fcfg_refl f : fcfg f f. Proof. unfold fcfg. tauto. Qed.
+Lemma fcfg_trans a b c : fcfg a b -> fcfg b c -> fcfg a c.
+Proof. unfold fcfg. intuition congruence. Qed.
+
+Definition wa_content (app : bool) (c : list Z) (rp : Z) (data : list Z) : list Z :=
+  if app then c ++ data else put c rp data.
+
+Lemma s_write_chunk data : data <> [] ->
+  take MAX_REQUEST_SIZE data <> [] /\
+  data = take MAX_REQUEST_SIZE data ++ drop (zlen (take MAX_REQUEST_SIZE data)) data /\
+  (length (drop (zlen (take MAX_REQUEST_SIZE data)) data) < length data)%nat.
+Proof.
+  intros H. pose proof (zlen_pos _ H) as Hp.
+  assert (Hz : zlen (take MAX_REQUEST_SIZE data) = Z.min MAX_REQUEST_SIZE (zlen data))
+    by (apply zlen_take; unfold MAX_REQUEST_SIZE; lia).
+  assert (H1 : 1 <= zlen (take MAX_REQUEST_SIZE data)) by (unfold MAX_REQUEST_SIZE in *; lia).
+  split; [intros E; rewrite E in H1; cbn in H1; lia|].
+  split; [apply take_drop_len; unfold MAX_REQUEST_SIZE; lia|].
+  pose proof (zlen_drop (zlen (take MAX_REQUEST_SIZE data)) data ltac:(lia)) as Hd.
+  unfold zlen in *. lia.
+Qed.
+
+(* _write_all over the server handle: the whole data lands, contiguously *)
+Lemma write_all_srv fuel : forall (f : sfile) data,
+  (length data < fuel)%nat -> srv_ok (strm f) -> s_app (strm f) = fl_append f -> 0 <= realpos f ->
+  (fl_append f = true -> fsize f = zlen (s_content (strm f))) ->
+  exists f', write_all s_write fuel f data = Some f' /\
+    s_content (strm f') = wa_content (fl_append f) (s_content (strm f)) (realpos f) data /\
+    srv_ok (strm f') /\ s_app (strm f') = fl_append f' /\ fcfg f f' /\
+    rbuf f' = rbuf f /\ wbuf f' = wbuf f /\
+    (fl_append f' = true -> fsize f' = zlen (s_content (strm f'))) /\
+    (fl_append f = false -> pos f' = pos f + zlen data /\ realpos f' = realpos f + zlen data) /\
+    (fl_append f = true -> data <> [] ->
+       pos f' = zlen (s_content (strm f')) /\ realpos f' = zlen (s_content (strm f'))) /\
+    (data = [] -> f' = f).
+Proof.
+  induction fuel as [|k IH]; intros f data Hl Hok Happ Hrp Hsz; [lia|].
+  cbn [write_all]. destruct (is_nil data) eqn:En.
+  - apply is_nil_true in En. subst data. exists f. split; [reflexivity|].
+    split; [unfold wa_content; destruct (fl_append f); [now rewrite app_nil_r|reflexivity]|].
+    repeat split; try assumption; try reflexivity; try (rewrite zlen_nil; lia); try congruence; try apply fcfg_refl.
+  - apply is_nil_false in En. destruct (s_write_chunk data En) as (Hc1 & Hc2 & Hc3).
+    set (chunk := take MAX_REQUEST_SIZE data) in *. set (rest := drop (zlen chunk) data) in *.
+    unfold s_write at 1. fold chunk. rewrite Happ.
+    destruct (fl_append f) eqn:Ea.
+    + (* append *)
+      set (c := s_content (strm f)) in *.
+      match goal with |- exists f', write_all _ _ ?F _ = _ /\ _ => set (f1 := F) end.
+      assert (Hsz1 : fl_append f1 = true -> fsize f1 = zlen (s_content (strm f1))).
+      { intros _. unfold f1. cbn. rewrite (Hsz eq_refl), zlen_app. reflexivity. }
+      assert (Hf1 : fl_append f1 = true) by (unfold f1; exact Ea).
+      destruct (IH f1 rest ltac:(lia) ltac:(unfold f1; exact I)
+                  ltac:(unfold f1; cbn; now rewrite Ea)
+                  ltac:(unfold f1; cbn; rewrite (Hsz eq_refl); pose proof (zlen_nonneg c);
+                        pose proof (zlen_nonneg chunk); lia) Hsz1)
+        as (f' & E & C & Ok' & App' & Cfg & Rb & Wb & Sz' & _ & PosA & Nil).
+      exists f'. split; [exact E|].
+      assert (Hcfg1 : fcfg f f1) by (unfold f1; unfold fcfg; cbn; tauto).
+      assert (Hc1' : s_content (strm f1) = c ++ chunk) by (unfold f1; reflexivity).
+      split.
+      { rewrite C, Hf1. unfold wa_content. rewrite Hc1'. rewrite <- app_assoc. now rewrite <- Hc2. }
+      split; [exact Ok'|]. split; [exact App'|]. split; [eapply fcfg_trans; eassumption|].
+      split; [rewrite Rb; unfold f1; reflexivity|].
+      split; [rewrite Wb; unfold f1; reflexivity|].
+      split; [exact Sz'|]. split; [intros; discriminate|]. split; [|intros; congruence].
+      intros _ _. destruct rest as [|r0 rest'] eqn:Er.
+      * rewrite (Nil eq_refl). rewrite Hc1'. unfold f1. cbn.
+        rewrite (Hsz eq_refl), zlen_app. fold c. split; reflexivity.
+      * apply (PosA Hf1). discriminate.
+    + (* positional *)
+      set (c := s_content (strm f)) in *.
+      set (t := match s_tell (strm f) with Some t => t | None => s_fpos (strm f) end).
+      assert (Ht : t = s_fpos (strm f)) by (unfold t, srv_ok in *; destruct (s_tell (strm f)); auto).
+      assert (Hfp : (if realpos f =? t then s_fpos (strm f) else realpos f) = realpos f)
+        by (destruct (realpos f =? t) eqn:Eq; lia).
+      rewrite Hfp.
+      match goal with |- exists f', write_all _ _ ?F _ = _ /\ _ => set (f1 := F) end.
+      assert (Hf1 : fl_append f1 = false) by (unfold f1; exact Ea).
+      destruct (IH f1 rest ltac:(lia) ltac:(unfold f1, srv_ok; cbn; reflexivity)
+                  ltac:(unfold f1; cbn; now rewrite Ea)
+                  ltac:(unfold f1; cbn; pose proof (zlen_nonneg chunk); lia)
+                  ltac:(intros H; rewrite Hf1 in H; discriminate))
+        as (f' & E & C & Ok' & App' & Cfg & Rb & Wb & Sz' & PosN & _ & _).
+      exists f'. split; [exact E|].
+      assert (Hcfg1 : fcfg f f1) by (unfold f1; unfold fcfg; cbn; tauto).
+      split.
+      { rewrite C, Hf1. unfold wa_content. unfold f1. cbn. fold c.
+        rewrite put_app by lia. now rewrite <- Hc2. }
+      split; [exact Ok'|]. split; [exact App'|]. split; [eapply fcfg_trans; eassumption|].
+      split; [rewrite Rb; reflexivity|]. split; [rewrite Wb; reflexivity|].
+      split; [exact Sz'|]. split; [|split; [intros; discriminate|intros; congruence]].
+      intros _. destruct (PosN Hf1) as [P1 P2]. rewrite P1, P2. unfold f1. cbn.
+      assert (Hz : zlen data = zlen chunk + zlen rest) by (rewrite Hc2 at 1; apply zlen_app).
+      split; lia.
+Qed.
+
+(* ---- invariant of an SFTPFile and the reference file it stands for ---- *)
+Record winv (f : sfile) : Prop := mk_winv {
+  w_srv : srv_ok (strm f);
+  w_app : s_app (strm f) = fl_append f;
+  w_closed : closed f = false;
+  w_bufsize : 0 < bufsize f;
+  w_pos0 : 0 <= pos f;
+  w_size : fl_append f = true -> fsize f = zlen (s_content (strm f));
+  w_unbuf : fl_buffered f = false -> wbuf f = [];
+  w_real : realpos f = pos f + zlen (rbuf f);
+  w_L : Lf f = drop (pos f) (s_content (strm f));
+  w_excl : wbuf f <> [] -> rbuf f = [] }.
+
+Lemma winv_rbnil (f : sfile) :
+  srv_ok (strm f) -> s_app (strm f) = fl_append f -> closed f = false -> 0 < bufsize f ->
+  0 <= pos f -> (fl_append f = true -> fsize f = zlen (s_content (strm f))) ->
+  (fl_buffered f = false -> wbuf f = []) -> rbuf f = [] -> realpos f = pos f -> winv f.
+Proof.
+  intros H1 H2 H3 H4 H5 H6 H7 Hrb Hrp. constructor; try assumption.
+  - rewrite Hrb. cbn. lia.
+  - unfold Lf, L, RemOf, sRem. rewrite Hrb, Hrp. reflexivity.
+  - intros _. exact Hrb.
+Qed.
+
+(* what the reference file holds: server content with the pending write buffer applied *)
+Definition view_content (f : sfile) : list Z :=
+  wa_content (fl_append f) (s_content (strm f)) (pos f) (wbuf f).
+Definition view_pos (f : sfile) : Z :=
+  if fl_append f
+  then (if is_nil (wbuf f) then pos f else zlen (s_content (strm f)) + zlen (wbuf f))
+  else pos f + zlen (wbuf f).
+Definition sim (f : sfile) (r : rfile) : Prop :=
+  r_content r = view_content f /\ r_pos r = view_pos f /\
+  r_rd r = fl_read f /\ r_wr r = fl_write f /\ r_app r = fl_append f.
+
+Lemma view_nil f : wbuf f = [] -> view_content f = s_content (strm f) /\ view_pos f = pos f.
+Proof.
+  intros H. unfold view_content, view_pos, wa_content. rewrite H. cbn.
+  destruct (fl_append f); split; try reflexivity; try apply app_nil_r; lia.
+Qed.
+
+(* flushing the first k bytes of the write buffer does not change what the file stands for *)
+Lemma partial_flush fuel (f : sfile) k :
+  winv f -> (length (wbuf f) < fuel)%nat -> 0 <= k <= zlen (wbuf f) ->
+  exists f2, write_all s_write fuel f (take k (wbuf f)) = Some f2 /\
+    let f3 := upd_wr f2 (drop k (wbuf f)) (pos f2) (realpos f2) (fsize f2) (strm f2) in
+    winv f3 /\ view_content f3 = view_content f /\ view_pos f3 = view_pos f /\ fcfg f f3.
+Proof.
+  intros W Hl Hk. set (A := take k (wbuf f)). set (B := drop k (wbuf f)).
+  assert (HAB : wbuf f = A ++ B) by (symmetry; apply take_drop).
+  assert (HlA : (length A < fuel)%nat).
+  { pose proof (zlen_take k (wbuf f) ltac:(lia)) as Hz. fold A in Hz. unfold zlen in *. lia. }
+  assert (Hrp0 : 0 <= realpos f).
+  { rewrite (w_real _ W). pose proof (w_pos0 _ W). pose proof (zlen_nonneg (rbuf f)). lia. }
+  destruct (write_all_srv fuel f A HlA (w_srv _ W) (w_app _ W) Hrp0 (w_size _ W))
+    as (f2 & E & C & Ok' & App' & Cfg & Rb & Wb & Sz' & PosN & PosA & Nil).
+  exists f2. split; [exact E|]. cbn zeta.
+  destruct Cfg as (G1 & G2 & G3 & G4 & G5 & G6 & G7).
+  assert (Hcfg3 : fcfg f (upd_wr f2 B (pos f2) (realpos f2) (fsize f2) (strm f2)))
+    by (unfold fcfg; cbn; tauto).
+  destruct A as [|a0 A'] eqn:EA.
+  - (* nothing to flush *)
+    rewrite (Nil eq_refl) in *. cbn in HAB. rewrite <- HAB.
+    assert (Hsame : forall g : sfile, g = upd_wr f (wbuf f) (pos f) (realpos f) (fsize f) (strm f) ->
+              winv g /\ view_content g = view_content f /\ view_pos g = view_pos f /\ fcfg f g).
+    { intros g ->. split; [|repeat split].
+      destruct W. constructor; cbn; assumption. }
+    apply Hsame. reflexivity.
+  - (* a non-empty prefix is written: the read buffer is empty and realpos = pos *)
+    assert (Hwne : wbuf f <> []) by (rewrite HAB; discriminate).
+    pose proof (w_excl _ W Hwne) as Hrb.
+    assert (Hrp : realpos f = pos f) by (rewrite (w_real _ W), Hrb; cbn; lia).
+    assert (HAne : a0 :: A' <> []) by discriminate.
+    set (AA := a0 :: A') in *.
+    assert (Hpos2 : realpos f2 = pos f2 /\ 0 <= pos f2 /\
+                    view_content (upd_wr f2 B (pos f2) (realpos f2) (fsize f2) (strm f2)) = view_content f /\
+                    view_pos (upd_wr f2 B (pos f2) (realpos f2) (fsize f2) (strm f2)) = view_pos f).
+    { unfold view_content, view_pos, wa_content. cbn. rewrite G3, C. unfold wa_content.
+      destruct (fl_append f) eqn:Ea.
+      - destruct (PosA eq_refl HAne) as [P1 P2]. rewrite C in P1, P2. unfold wa_content in P1, P2.
+        rewrite P1, P2. split; [reflexivity|]. split; [apply zlen_nonneg|].
+        rewrite HAB, <- app_assoc. split; [reflexivity|].
+        replace (is_nil (AA ++ B)) with false by reflexivity.
+        rewrite !zlen_app. destruct (is_nil B) eqn:EB.
+        + apply is_nil_true in EB. rewrite EB. cbn. lia.
+        + lia.
+      - destruct (PosN eq_refl) as [P1 P2]. rewrite P1, P2, Hrp.
+        pose proof (w_pos0 _ W). pose proof (zlen_nonneg AA).
+        split; [reflexivity|]. split; [lia|].
+        rewrite put_app by lia. rewrite HAB. split; [reflexivity|]. rewrite zlen_app. lia. }
+    destruct Hpos2 as (Q1 & Q2 & Q3 & Q4).
+    split; [|split; [exact Q3|split; [exact Q4|exact Hcfg3]]].
+    apply winv_rbnil; cbn; try assumption.
+    + rewrite G7. apply W.
+    + rewrite G6. apply W.
+    + rewrite G4. intros Hb. rewrite (w_unbuf _ W Hb) in Hwne. congruence.
+    + rewrite Rb. exact Hrb.
+Qed.
+
+Lemma flush_core fuel (f : sfile) :
+  winv f -> (length (wbuf f) < fuel)%nat ->
+  exists f', bf_flush s_write fuel f = (Ok tt, f') /\ winv f' /\ wbuf f' = [] /\
+    s_content (strm f') = view_content f /\ pos f' = view_pos f /\ fcfg f f'.
+Proof.
+  intros W Hl.
+  destruct (partial_flush fuel f (zlen (wbuf f)) W Hl ltac:(pose proof (zlen_nonneg (wbuf f)); lia))
+    as (f2 & E & W3 & V1 & V2 & Cfg).
+  rewrite take_all in E by lia. rewrite drop_all in W3, V1, V2, Cfg by lia.
+  unfold bf_flush. rewrite E. eexists. split; [reflexivity|].
+  split; [exact W3|]. split; [reflexivity|].
+  destruct (view_nil (upd_wr f2 [] (pos f2) (realpos f2) (fsize f2) (strm f2)) eq_refl) as [N1 N2].
+  split; [rewrite <- V1; symmetry; exact N1|]. split; [rewrite <- V2; symmetry; exact N2|exact Cfg].
+Qed.
+
+(* effect of write(d) on the reference *)
+Lemma ref_write r d : r_wr r = true ->
+  ref_step r (FWrite d) =
+    (FNone, if is_nil d then r
+            else let p := if r_app r then zlen (r_content r) else r_pos r in
+                 set_content r (put (r_content r) p d) (p + zlen d)).
+Proof. intros H. cbn. rewrite H. cbn. destruct (is_nil d); reflexivity. Qed.
+
+(* appending d to the write buffer is exactly write(d) on the reference *)
+Lemma buffer_write_sim (f : sfile) r d :
+  winv f -> sim f r -> rbuf f = [] ->
+  let f1 := upd_wr f (wbuf f ++ d) (pos f) (realpos f) (fsize f) (strm f) in
+  let r1 := if is_nil d then r
+            else let p := if r_app r then zlen (r_content r) else r_pos r in
+                 set_content r (put (r_content r) p d) (p + zlen d) in
+  (fl_buffered f = true -> winv f1) /\ sim f1 r1.
+Proof.
+  intros W (S1 & S2 & S3 & S4 & S5) Hrb. cbn zeta.
+  assert (Hrp : realpos f = pos f) by (rewrite (w_real _ W), Hrb; cbn; lia).
+  split.
+  { intros Hb. apply winv_rbnil; cbn; try apply W; try assumption.
+    intros Hb'. congruence. }
+  destruct d as [|x d'].
+  - cbn [is_nil]. unfold sim, view_content, view_pos. cbn. rewrite app_nil_r.
+    repeat split; assumption.
+  - set (d := x :: d'). cbn [is_nil]. unfold sim. cbn [r_content r_pos r_rd r_wr r_app set_content].
+    unfold view_content, view_pos, wa_content in *. cbn. rewrite S5.
+    destruct (fl_append f) eqn:Ea.
+    + rewrite S1, put_end. split; [now rewrite app_assoc|].
+      replace (is_nil (wbuf f ++ d)) with false
+        by (symmetry; apply is_nil_false; destruct (wbuf f); discriminate).
+      split; [rewrite !zlen_app; lia|]. repeat split; assumption.
+    + rewrite S1, S2. pose proof (w_pos0 _ W).
+      rewrite put_app by lia. split; [reflexivity|].
+      split; [rewrite zlen_app; lia|]. repeat split; assumption.
+Qed.
+
+Lemma guard_fuel fuel f o : guard fuel f o = true ->
+  (length (s_content (strm f)) + length (wbuf f)
+   + match o with FWrite d => length d | _ => O end < fuel)%nat.
+Proof. unfold guard. intros H. apply andb_true_iff in H as [H _]. now apply Nat.ltb_lt in H. Qed.
+
+Definition sInv2 (c : list Z) (app : bool) (s : srv) (rp : Z) : Prop := sInv c s rp /\ s_app s = app.
+Lemma s_read_spec2 c app : forall s rp n d s',
+  sInv2 c app s rp -> 0 < n -> s_read s rp n = (d, s') ->
+  sRem s rp = d ++ sRem s' (rp + zlen d) /\ zlen d <= n /\ (d = [] -> sRem s rp = []) /\
+  sInv2 c app s' (rp + zlen d).
+Proof.
+  intros s rp n d s' [Hi Ha] Hn E.
+  destruct (s_read_spec c s rp n d s' Hi Hn E) as (H1 & H2 & H3 & H4).
+  repeat split; try assumption; try apply H4.
+  unfold s_read in E. injection E as _ <-. exact Ha.
+Qed.
+
+(* a successful read call keeps the invariant and advances the reference by the result *)
+Lemma post_winv (f f' : sfile) r res c :
+  winv f -> sim f r -> wbuf f = [] -> c = s_content (strm f) ->
+  post srv sRem (sInv2 c (fl_append f)) f f' res ->
+  winv f' /\ sim f' (set_pos r (r_pos r + zlen res)).
+Proof.
+  intros W (S1 & S2 & S3 & S4 & S5) Hw -> (P1 & ((I1 & I2 & I3) & I4) & Cfg & P4 & P5).
+  destruct Cfg as (C1 & C2 & C3 & C4 & C5 & C6 & C7 & C8 & C9).
+  fold (Lf f) in P1. fold (Lf f') in P1.
+  assert (HL : Lf f' = drop (pos f') (s_content (strm f'))).
+  { destruct (app_take_inv _ _ _ P1) as [_ H2]. rewrite H2, (w_L _ W), P4, I1.
+    apply drop_drop; [apply zlen_nonneg|apply W]. }
+  assert (Hreal : realpos f' = pos f' + zlen (rbuf f')).
+  { apply (f_equal zlen) in P1. unfold Lf, L in P1. rewrite !zlen_app in P1.
+    rewrite (w_real _ W) in P5. lia. }
+  assert (Hw' : wbuf f' = []) by congruence.
+  split.
+  - constructor; try assumption.
+    + congruence.
+    + rewrite C9. apply W.
+    + rewrite C8. apply W.
+    + rewrite P4. pose proof (w_pos0 _ W). pose proof (zlen_nonneg res). lia.
+    + rewrite C5, C2, I1. apply W.
+    + intros _. exact Hw'.
+    + intros H. congruence.
+  - destruct (view_nil f Hw) as [V1 V2]. destruct (view_nil f' Hw') as [V1' V2'].
+    unfold sim. cbn. rewrite V1', V2', I1, P4, S1, V1, S2, V2. repeat split; congruence.
+Qed.
+
+(* one call of the disciplined fragment *)
+Lemma step_disciplined fuel (f : sfile) r o :
+  winv f -> sim f r -> guard fuel f o = true ->
+  exists x f' r', sf_step fuel f o = (x, f') /\ ref_step r o = (x, r') /\ winv f' /\ sim f' r'.
+Proof.
+  intros W S G. pose proof (guard_fuel _ _ _ G) as Hfuel.
+  unfold guard in G. apply andb_true_iff in G as [_ G].
+  pose proof S as (S1 & S2 & S3 & S4 & S5).
+  set (c := s_content (strm f)).
+  assert (Hinv : wbuf f = [] -> inv srv (sInv2 c (fl_append f)) f).
+  { intros _. unfold inv, sInv2, sInv. split; [|apply W]. split; [reflexivity|]. split; [|apply W].
+    rewrite (w_real _ W). pose proof (w_pos0 _ W). pose proof (zlen_nonneg (rbuf f)). lia. }
+  assert (Hfo : fuel_ok srv sRem fuel f).
+  { unfold fuel_ok, RemOf, sRem. rewrite drop_skipn, skipn_length. lia. }
+  destruct o as [n|size| |d|off whence| |n|]; try discriminate G; cbn [sf_step ref_step].
+  - (* read *)
+    apply is_nil_true in G. destruct (view_nil f G) as [V1 V2].
+    rewrite S3. destruct (fl_read f) eqn:Er; cbn [negb].
+    + assert (Hrest : rest r = Lf f) by (unfold rest; now rewrite S1, S2, V1, V2, (w_L _ W)).
+      rewrite Hrest.
+      destruct n as [n|]; [destruct (Z_lt_ge_dec n 0) as [Hn|Hn]|].
+      * destruct (read_all_spec srv s_read sRem _ (s_read_spec2 c (fl_append f)) fuel f (Some n)
+                    (Hinv G) Hfo (w_closed _ W) Er Hn) as (f' & E & P & _).
+        rewrite E. replace (n <? 0) with true by lia. fold (Lf f).
+        destruct (post_winv f f' r (Lf f) c W S G eq_refl P) as [W' S'].
+        eexists _, f', _. split; [reflexivity|]. split; [reflexivity|]. split; assumption.
+      * destruct (read_n_spec srv s_read sRem _ (s_read_spec2 c (fl_append f)) fuel f n
+                    (Hinv G) Hfo (w_bufsize _ W) (w_closed _ W) Er ltac:(lia)) as (f' & E & P).
+        rewrite E. replace (n <? 0) with false by lia. fold (Lf f).
+        destruct (post_winv f f' r _ c W S G eq_refl P) as [W' S'].
+        eexists _, f', _. split; [reflexivity|]. split; [reflexivity|]. split; assumption.
+      * destruct (read_all_spec srv s_read sRem _ (s_read_spec2 c (fl_append f)) fuel f None
+                    (Hinv G) Hfo (w_closed _ W) Er I) as (f' & E & P & _).
+        rewrite E. fold (Lf f).
+        destruct (post_winv f f' r (Lf f) c W S G eq_refl P) as [W' S'].
+        eexists _, f', _. split; [reflexivity|]. split; [reflexivity|]. split; assumption.
+    + unfold bf_read. rewrite (w_closed _ W), Er. cbn.
+      eexists _, _, _. split; [reflexivity|]. split; [reflexivity|]. split; assumption.
+  - (* readline *)
+    apply is_nil_true in G. destruct (view_nil f G) as [V1 V2].
+    rewrite S3. destruct (fl_read f) eqn:Er; cbn [negb].
+    + assert (Hrest : rest r = Lf f) by (unfold rest; now rewrite S1, S2, V1, V2, (w_L _ W)).
+      rewrite Hrest.
+      destruct (readline_spec srv s_read sRem _ (s_read_spec2 c (fl_append f)) fuel f size
+                  (Hinv G) Hfo (w_bufsize _ W) (w_closed _ W) Er) as (f' & E & P).
+      rewrite E. fold (Lf f).
+      destruct (post_winv f f' r _ c W S G eq_refl P) as [W' S'].
+      eexists _, f', _. split; [reflexivity|]. split; [reflexivity|]. split; assumption.
+    + unfold bf_readline. rewrite (w_closed _ W), Er. cbn.
+      eexists _, _, _. split; [reflexivity|]. split; [reflexivity|]. split; assumption.
+  - (* write *)
+    apply is_nil_true in G. cbn in Hfuel.
+    destruct (fl_write f) eqn:Ew.
+    + rewrite (ref_write r d ltac:(congruence)).
+      destruct (buffer_write_sim f r d W S G) as [W1 S1'].
+      set (f1 := upd_wr f (wbuf f ++ d) (pos f) (realpos f) (fsize f) (strm f)) in *.
+      set (r1 := if is_nil d then r else _) in *.
+      unfold bf_write. rewrite (w_closed _ W), Ew. cbn [negb].
+      destruct (fl_buffered f) eqn:Eb; cbn [negb].
+      * specialize (W1 eq_refl). fold f1.
+        assert (Hl1 : (length (wbuf f1) < fuel)%nat) by (unfold f1; cbn; rewrite app_length; lia).
+        destruct (fl_linebuf f) eqn:El.
+        -- destruct (rindex_of LF d) as [p|] eqn:Ep.
+           ++ destruct (rindex_of_some _ _ _ Ep) as [Hp _].
+              set (k := Z.of_nat p + (zlen (wbuf f ++ d) - zlen d) + 1).
+              assert (Hk : 0 <= k <= zlen (wbuf f1)).
+              { unfold k, f1. cbn. rewrite zlen_app. unfold zlen in *. lia. }
+              destruct (partial_flush fuel f1 k W1 Hl1 Hk) as (f2 & E & W3 & V1 & V2 & Cfg).
+              change (wbuf f1) with (wbuf f ++ d) in E. fold k. rewrite E.
+              eexists _, _, _. split; [reflexivity|]. split; [reflexivity|].
+              split; [exact W3|].
+              destruct S1' as (T1 & T2 & T3 & T4 & T5). destruct Cfg as (G1 & G2 & G3 & _).
+              unfold sim. rewrite V1, V2. repeat split; try assumption; congruence.
+           ++ eexists _, _, _. split; [reflexivity|]. split; [reflexivity|]. split; assumption.
+        -- destruct (bufsize f <=? zlen (wbuf f ++ d)) eqn:Ebs.
+           ++ destruct (flush_core fuel f1 W1 Hl1) as (f2 & E & W2 & Wb & C2 & P2 & Cfg).
+              rewrite E. eexists _, _, _. split; [reflexivity|]. split; [reflexivity|].
+              split; [exact W2|].
+              destruct (view_nil f2 Wb) as [N1 N2].
+              destruct S1' as (T1 & T2 & T3 & T4 & T5). destruct Cfg as (G1 & G2 & G3 & _).
+              unfold sim. rewrite N1, N2, C2, P2. repeat split; try assumption; congruence.
+           ++ eexists _, _, _. split; [reflexivity|]. split; [reflexivity|]. split; assumption.
+      * (* unbuffered: the buffer is empty, the data goes straight out *)
+        pose proof (w_unbuf _ W Eb) as Hwb.
+        assert (Hrp : realpos f = pos f) by (rewrite (w_real _ W), G; cbn; lia).
+        assert (Hrp0 : 0 <= realpos f) by (rewrite Hrp; apply W).
+        destruct (write_all_srv fuel f d ltac:(lia) (w_srv _ W) (w_app _ W) Hrp0 (w_size _ W))
+          as (f2 & E & C & Ok' & App' & Cfg & Rb & Wb & Sz' & PosN & PosA & Nil).
+        rewrite E. eexists _, f2, _. split; [reflexivity|]. split; [reflexivity|].
+        destruct Cfg as (G1 & G2 & G3 & G4 & G5 & G6 & G7).
+        assert (Hwb2 : wbuf f2 = []) by congruence.
+        assert (Hpos2 : realpos f2 = pos f2 /\ 0 <= pos f2 /\ s_content (strm f2) = view_content f1 /\
+                        pos f2 = view_pos f1).
+        { unfold view_content, view_pos, wa_content, f1. cbn. rewrite Hwb. cbn [app].
+          rewrite C. unfold wa_content. destruct (fl_append f) eqn:Ea.
+          - destruct d as [|x d'].
+            + rewrite (Nil eq_refl). rewrite Hrp, app_nil_r. cbn.
+              split; [reflexivity|]. split; [apply W|]. split; reflexivity.
+            + destruct (PosA eq_refl ltac:(discriminate)) as [P1 P2].
+              rewrite C in P1, P2. unfold wa_content in P1, P2. rewrite Ea in P1, P2.
+              rewrite P1, P2. cbn [is_nil]. rewrite zlen_app.
+              split; [reflexivity|]. split; [rewrite <- zlen_app; apply zlen_nonneg|]. split; reflexivity.
+          - destruct (PosN eq_refl) as [P1 P2]. rewrite P1, P2, Hrp.
+            pose proof (w_pos0 _ W). pose proof (zlen_nonneg d).
+            split; [reflexivity|]. split; [lia|]. split; reflexivity. }
+        destruct Hpos2 as (Q1 & Q2 & Q3 & Q4).
+        split.
+        -- apply winv_rbnil; try assumption.
+           ++ rewrite G7. apply W.
+           ++ rewrite G6. apply W.
+           ++ intros _. exact Hwb2.
+           ++ congruence.
+        -- destruct (view_nil f2 Hwb2) as [N1 N2].
+           destruct S1' as (T1 & T2 & T3 & T4 & T5).
+           unfold sim. rewrite N1, N2, Q3, Q4.
+           assert (fl_read f1 = fl_read f /\ fl_write f1 = fl_write f /\ fl_append f1 = fl_append f)
+             by (unfold f1; cbn; tauto).
+           repeat split; try assumption; intuition congruence.
+    + (* not writable on either side *)
+      unfold bf_write. rewrite (w_closed _ W), Ew. cbn. rewrite S4, Ew. cbn.
+      eexists _, _, _. split; [reflexivity|]. split; [reflexivity|]. split; assumption.
+  - (* seek *)
+    destruct (flush_core fuel f W ltac:(lia)) as (f1 & E & W1 & Wb & C1 & P1 & Cfg).
+    unfold sf_seek. rewrite E. rewrite C1, P1, <- S1, <- S2.
+    set (p := if whence =? 0 then off else if whence =? 1 then r_pos r + off else zlen (r_content r) + off).
+    destruct (view_nil f1 Wb) as [N1 N2].
+    destruct Cfg as (G1 & G2 & G3 & G4 & G5 & G6 & G7).
+    destruct (p <? 0) eqn:Ep.
+    + eexists _, _, _. split; [reflexivity|]. split; [reflexivity|]. split; [exact W1|].
+      unfold sim. rewrite N1, N2, C1, P1. repeat split; congruence.
+    + eexists _, _, _. split; [reflexivity|]. split; [reflexivity|].
+      split.
+      * apply winv_rbnil; cbn; try apply W1; try reflexivity; try lia.
+      * unfold sim, view_content, view_pos, wa_content. cbn. rewrite Wb. cbn.
+        rewrite C1, S1. destruct (fl_append f1); repeat split; try congruence;
+          try (now rewrite app_nil_r); lia.
+  - (* tell *)
+    apply is_nil_true in G. destruct (view_nil f G) as [_ V2].
+    rewrite S2, V2. eexists _, _, _. split; [reflexivity|]. split; [reflexivity|]. split; assumption.
+  - (* flush *)
+    destruct (flush_core fuel f W ltac:(lia)) as (f1 & E & W1 & Wb & C1 & P1 & Cfg).
+    rewrite E. cbn. destruct (view_nil f1 Wb) as [N1 N2].
+    destruct Cfg as (G1 & G2 & G3 & _).
+    eexists _, _, _. split; [reflexivity|]. split; [reflexivity|]. split; [exact W1|].
+    unfold sim. rewrite N1, N2, C1, P1. repeat split; congruence.
+Qed.
+
+Lemma final_content_view fuel (f : sfile) :
+  winv f -> (length (wbuf f) < fuel)%nat -> final_content fuel f = view_content f.
+Proof.
+  intros W Hl. unfold final_content, bf_close.
+  destruct (flush_core fuel f W Hl) as (f1 & E & _ & _ & C1 & _). rewrite E. cbn. exact C1.
+Qed.
+
+Lemma run_disciplined fuel : forall ops (f : sfile) r,
+  winv f -> sim f r -> guarded fuel f ops = true ->
+  fst (sf_run fuel f ops) = fst (ref_run r ops) /\
+  final_content fuel (snd (sf_run fuel f ops)) = r_content (snd (ref_run r ops)).
+Proof.
+  induction ops as [|o ops IH]; intros f r W S G.
+  - cbn in *. split; [reflexivity|]. apply Nat.ltb_lt in G.
+    rewrite (final_content_view fuel f W G). symmetry. apply S.
+  - assert (Hstep : guard fuel f o = true -> guarded fuel (snd (sf_step fuel f o)) ops = true ->
+              fst (sf_run fuel f (o :: ops)) = fst (ref_run r (o :: ops)) /\
+              final_content fuel (snd (sf_run fuel f (o :: ops))) = r_content (snd (ref_run r (o :: ops)))).
+    { intros G1 G2. destruct (step_disciplined fuel f r o W S G1) as (x & f1 & r1 & E1 & E2 & W1 & S1).
+      cbn [sf_run ref_run]. rewrite E1, E2. rewrite E1 in G2. cbn [snd] in G2.
+      destruct (IH f1 r1 W1 S1 G2) as [H1 H2].
+      destruct (sf_run fuel f1 ops) as [xs f2]. destruct (ref_run r1 ops) as [ys r2]. cbn in *.
+      split; [now f_equal|exact H2]. }
+    destruct o as [n|size| |d|off whence| |n|];
+      try (cbn [guarded] in G; apply andb_true_iff in G as [G1 G2]; now apply Hstep).
+    (* truncate *)
+    destruct ops as [|o2 ops'].
+    + cbn [guarded] in G. apply andb_true_iff in G as [G Hn]. apply andb_true_iff in G as [Hwb Hwr].
+      apply is_nil_true in Hwb. destruct S as (S1 & S2 & S3 & S4 & S5).
+      destruct (view_nil f Hwb) as [V1 V2].
+      cbn [sf_run ref_run sf_step ref_step sf_truncate]. rewrite S4, Hwr.
+      replace (n <? 0) with false by lia. cbn [negb orb fst snd].
+      split; [reflexivity|].
+      unfold final_content, bf_close, bf_flush. cbn [wbuf upd_rd]. rewrite Hwb.
+      assert (Hw : forall g : sfile, write_all s_write fuel g [] = Some g) by (intros; destruct fuel; reflexivity).
+      rewrite Hw. cbn. rewrite S1, V1. reflexivity.
+    + cbn [guarded] in G. apply andb_true_iff in G as [G1 G2]. unfold guard in G1.
+      apply andb_true_iff in G1 as [_ G1]. discriminate.
+Qed.
+
+Lemma open_winv m bufsz file f0 r0 :
+  sf_open m bufsz file = Some f0 -> ref_open m file = Some r0 -> m <> Mxbare ->
+  winv f0 /\ sim f0 r0.
+Proof.
+  intros Hs Hr Hm. unfold sf_open, ref_open in *.
+  assert (Hgen : forall c',
+      let f := set_mode (match m with Mr | Mrp => true | _ => false end)
+                (match m with Mw | Mwp | Mx => true | _ => false end) (m_append m)
+                (match m with Mrp | Mwp | Map => true | _ => false end) bufsz (zlen c')
+                (mksrv c' (if m_append m then zlen c' else 0) None (m_append m)) in
+      winv f /\ sim f (mkrf c' (if m_append m then zlen c' else 0) (m_read m) (m_write m) (m_append m))).
+  { intros c' f. split.
+    - apply winv_rbnil; try reflexivity.
+      + exact I.
+      + apply (generic_bufsize _ _ _ _ bufsz (zlen c')
+                 (mksrv c' (if m_append m then zlen c' else 0) None (m_append m))).
+      + unfold f. cbn. destruct (m_append m); [apply zlen_nonneg|lia].
+      + unfold f. cbn. intros ->. reflexivity.
+    - unfold sim, view_content, view_pos, wa_content, f. cbn.
+      destruct m; try congruence; cbn; repeat split; try reflexivity; try (now rewrite app_nil_r). }
+  destruct file as [c0|].
+  - destruct (m_excl m); [discriminate|]. injection Hs as <-. injection Hr as <-. apply Hgen.
+  - destruct (m_must_exist m); [discriminate|]. injection Hs as <-. injection Hr as <-.
+    specialize (Hgen []). change (zlen []) with 0 in *. cbn zeta in Hgen.
+    destruct (m_append m); exact Hgen.
+Qed.
+
+Lemma refines_partial :
+  forall (m : fmode) (bufsz : Z) (file : option (list Z)) (ops : list fop) (fuel : nat)
+         (f0 : sfile) (r0 : rfile),
+    sf_open m bufsz file = Some f0 -> ref_open m file = Some r0 -> m <> Mxbare ->
+    guarded fuel f0 ops = true ->
+    fst (sf_run fuel f0 ops) = fst (ref_run r0 ops) /\
+    final_content fuel (snd (sf_run fuel f0 ops)) = r_content (snd (ref_run r0 ops)).
+Proof.
+  intros m bufsz file ops fuel f0 r0 Hs Hr Hm G.
+  destruct (open_winv _ _ _ _ _ Hs Hr Hm) as [W S].
+  exact (run_disciplined fuel ops f0 r0 W S G).
+Qed.
